@@ -51,7 +51,7 @@ fn both(text: String, out: &mut Vec<TsCase>) {
     out.push(TsCase { text, query_carrier: true, pad: 0 });
 }
 
-fn field_list(_t: Tier) -> Vec<TsCase> {
+pub fn field_list(_t: Tier) -> Vec<TsCase> {
     let mut out = Vec::new();
     for v in 0..100u32 {
         both(format!("2015{:02}15T123600Z", v), &mut out);
@@ -72,6 +72,19 @@ fn field_list(_t: Tier) -> Vec<TsCase> {
             both(format!("2015-08-30T00:10:00{}00:{:02}", sign, v), &mut out);
         }
     }
+    // the last minute of the day, where a leap second would sit, and over-long fractions
+    for v in 0..100u32 {
+        both(format!("20150630T2359{:02}Z", v), &mut out);
+        both(format!("2016-12-31T23:59:{:02}+00:00", v), &mut out);
+        both(format!("20150830T23{:02}60Z", v), &mut out);
+    }
+    for n in [13usize, 18, 19, 20, 21, 25, 32, 40, 64] {
+        for d in ['0', '1', '5', '9'] {
+            let f: String = std::iter::repeat(d).take(n).collect();
+            both(format!("20150830T123600.{}Z", f), &mut out);
+            both(format!("2015-08-30T12:36:00,{}+02:30", f), &mut out);
+        }
+    }
     for y in ["0001", "0999", "1000", "9999", "0000", "0004"] {
         both(format!("{}0229T000000Z", y), &mut out);
         both(format!("{}-01-01T00:00:00+00:01", y), &mut out);
@@ -81,7 +94,7 @@ fn field_list(_t: Tier) -> Vec<TsCase> {
     out
 }
 
-fn separator_list(_t: Tier) -> Vec<TsCase> {
+pub fn separator_list(_t: Tier) -> Vec<TsCase> {
     let mut out = Vec::new();
     for mask in 0..32u32 {
         let d1 = if mask & 1 != 0 { "-" } else { "" };
@@ -116,7 +129,7 @@ fn valid_ts() -> BoxedStrategy<String> {
     (instant(), ts_style()).prop_map(|(i, st)| render(truncate_to_style(i, &st), st)).boxed()
 }
 
-fn mutated() -> BoxedStrategy<TsCase> {
+pub fn mutated() -> BoxedStrategy<TsCase> {
     (valid_ts(), 0u8..3, any::<u16>(), any::<u16>(), any::<bool>(), prop_oneof![3 => Just(0u8), 1 => 0u8..16])
         .prop_map(|(t, kind, pos, c, q, pad)| {
             const ALPHA: &[u8] = b"0123456789TZtz:+-., 9";
